@@ -4,9 +4,10 @@
 # columns: seed, property, caught(yes/no), first failing obligation, summary line
 export GOFLAGS=-mod=mod GOPROXY=off GOSUMDB=off GOTOOLCHAIN=local
 cd /verif
-seeds="$@"; [ -z "$seeds" ] && seeds=$(ls seeded | grep -E '^C[0-9]+-[0-9]+$')
+seeds="$@"; [ -z "$seeds" ] && seeds=$(ls seeded | grep -E '^(C[0-9]+-[0-9]+|canary-F[0-9]+)$')
 run_one() {
   s=$1; prop=${s%%-*}
+  case $s in canary-*) prop=$(jq -r .property /verif/seeded/$s/meta.json);; esac
   # a seed is also tried against the extra properties named in seeded/<s>/also (one id per line)
   props="$prop $(cat /verif/seeded/$s/also 2>/dev/null)"
   w=/tmp/seedrepo-$s; rm -rf $w; mkdir -p $w
